@@ -103,6 +103,7 @@ type world struct {
 	reads   []readRec
 	monitor string // first violation seen by the step monitor
 	clean   bool   // the execution ran to its end (the engine may be reused)
+	opDone  func(op *clientOp)
 }
 
 func newWorld(engine string, cacheSize int) *world {
